@@ -16,6 +16,8 @@ type StructOb struct {
 	OK     bool
 	Detail string
 	Src    string
+	// Concrete: the failure is a concrete input that was run against the real code (bounded checks)
+	Concrete bool
 }
 
 func (rep *Report) addStruct(obs []StructOb, backend string) {
